@@ -361,6 +361,8 @@ int main(void) {
         int ne = ex1 < ex2 && ey1 < ey2;
         res = sraClipRect(&a, &b, &c, &e, (int)v[4], (int)v[5], (int)v[6], (int)v[7]);
         if ((!!res) != ne) oracle_fail("sraClipRect returned %d but the intersection is %s", (int)res, ne ? "non-empty" : "empty");
+        if ((!!res) != (c > 0 && e > 0))
+          oracle_fail("sraClipRect returned %d but the rectangle it hands back has w=%d h=%d", (int)res, c, e);
         if (ne && (a != ex1 || b != ey1 || (ll)a + c != ex2 || (ll)b + e != ey2))
           oracle_fail("sraClipRect result %d,%d,%d,%d is not the intersection", a, b, c, e);
       } else {
@@ -368,6 +370,9 @@ int main(void) {
         ll ex2 = v[2] < v[6] ? v[2] : v[6], ey2 = v[3] < v[7] ? v[3] : v[7];
         int ne = ex1 < ex2 && ey1 < ey2;
         res = sraClipRect2(&a, &b, &c, &e, (int)v[4], (int)v[5], (int)v[6], (int)v[7]);
+        /* the return value must say whether the rectangle handed back is non-empty */
+        if ((!!res) != (c > a && e > b))
+          oracle_fail("sraClipRect2 returned %d but the rectangle it hands back (%d,%d)-(%d,%d) is %s", (int)res, a, b, c, e, (c > a && e > b) ? "non-empty" : "empty");
         if (ne && (!res || a != ex1 || b != ey1 || c != ex2 || e != ey2))
           oracle_fail("sraClipRect2 result %d: %d,%d,%d,%d is not the intersection of intersecting rectangles", (int)res, a, b, c, e);
         if (v[0] < v[2] && v[1] < v[3] && v[4] < v[6] && v[5] < v[7] && (!res || a < v[4] || c > v[6] || b < v[5] || e > v[7] || a >= c || b >= e))
